@@ -2257,3 +2257,65 @@ def rule_every_element_kind_is_wrapped_on_every_path(ctx, rep: Report, rid="T14"
         and len(arg.generators[0].ifs) == 1 and "GlobalFunction" in unparse(arg.generators[0].ifs[0]) and unparse(arg.elt) == unparse(arg.generators[0].target)
     rep.add(rid, "wrap_namespace:every free function of the namespace is handed to the function wrapper", bool(ok),
             f"argument `{unparse(arg)[:80] if arg is not None else None}`", f"{ci.mod.rel}:{call.lineno}", nontrivial=False)
+
+
+def rule_pair_element_by_position(ctx, rep: Report, rid="H13"):
+    """wrap_collector_function_return_types builds `out[k] = ...pairResult.<element>...` for position k of a pair.  Every
+    place where the emitted text reads the pair names the element *selected for this position* (the one conditional that
+    maps position 0 to `first` and 1 to `second`): a literal `pairResult.first` in one of the branches hands the first
+    element out in both positions."""
+    ci, prog = mw(ctx)
+    rt = prog.method("MatlabWrapper", "wrap_collector_function_return_types")
+    p = func_params(rt)[2]
+    loc = f"{ci.mod.rel}:{rt.lineno}"
+
+    def selection(x) -> bool:
+        if not (isinstance(x, ast.IfExp) and isinstance(x.body, ast.Constant) and isinstance(x.orelse, ast.Constant)):
+            return False
+        test = unparse(inline_locals(rt, x.test)).replace(" ", "")
+        pair = (x.body.value, x.orelse.value)
+        return (pair == ("first", "second") and test in (f"{p}==0", f"not{p}")) or \
+            (pair == ("second", "first") and test in (f"{p}!=0", f"{p}==1", f"{p}"))
+    fo_ = Folder(prog, ci.mod, rt, ci)
+    reads, bad = 0, []
+    seen = set()
+    for e in ast.walk(rt):
+        if not (isinstance(e, (ast.BinOp, ast.JoinedStr)) or (isinstance(e, ast.Call) and isinstance(e.func, ast.Attribute) and e.func.attr == "format")):
+            continue
+        par = parent(e)
+        if isinstance(par, ast.BinOp) and isinstance(par.op, ast.Add):
+            continue                # judged as part of the whole concatenation
+        try:
+            tt = fo_.fold(e)
+        except AnalysisError:
+            tt = None
+        if tt is None:
+            continue
+        parts = tt.flat().parts
+        for i_, q in enumerate(parts):
+            if not isinstance(q, str) or "pairResult" not in q:
+                continue
+            # every occurrence inside this literal piece
+            k = 0
+            while True:
+                k = q.find("pairResult", k)
+                if k < 0:
+                    break
+                key = (e.lineno, i_, k)
+                k += len("pairResult")
+                if key in seen:
+                    continue
+                seen.add(key)
+                reads += 1
+                rest = q[k:]
+                if rest == "." and i_ + 1 < len(parts) and not isinstance(parts[i_ + 1], str):
+                    v = inline_locals(rt, parts[i_ + 1].val) if parts[i_ + 1].val is not None else None
+                    if v is not None and selection(v):
+                        continue
+                    bad.append(f"line {e.lineno}: pairResult.<{unparse(parts[i_ + 1].val)[:30] if parts[i_ + 1].val is not None else '?'}>")
+                else:
+                    bad.append(f"line {e.lineno}: literal `pairResult{rest[:8]}`")
+    rep.add(rid, "pair result:every read of the pair names the element selected for the position being written", reads > 0 and not bad,
+            f"{reads} read(s) of pairResult; {bad}: the element written to out[k] has to be the k-th element of the pair in every branch "
+            f"(pointer, value copied with make_shared, plain value) - a fixed `.first` gives MATLAB the first element (or an object built "
+            f"from it) as the second output as well", loc)
